@@ -314,6 +314,7 @@ func (r *Run) ViolationAt(stream string, caseIdx int, sig, what string, witness 
 		os.WriteFile(path, b, 0o644)
 		v.Replay = path
 		fmt.Printf("violated: property=%s sig=%s case=%s/%d %s\n", r.ID, sig, stream, caseIdx, what)
+		fmt.Printf("violation-replay: %s\n", path) // lets the driver report a violation even if the run is cut short later
 	}
 	r.violations = append(r.violations, v)
 }
